@@ -257,6 +257,33 @@ def one_case(task):
                 fail(f"adding an unrelated module that defines another class named ZzLayer changed the stub {pth}",
                      variant="nested-class-final", path=pth, before=(ra["files"].get(pth) or "")[:600],
                      after=(rb["files"].get(pth) or "")[:600], reuses_names=False)
+        # (i) the top-level CLASSES of a module are permuted: a private class that is the superclass of a public class, and
+        #     another class that holds a NESTED private class of the same name, declared before / after it
+        if f"{root}.zz_registry" not in {m["qname"] for m in pkg["modules"]}:
+            reg = ["class ZzRegistry:", "    class _ZzBase:", "        def zz_entry_count(self) -> int:", "            return 0", ""]
+            pbase = ["class _ZzBase:", "    def zz_describe(self) -> str:", "        return ''", ""]
+            child = ["class ZzChild(_ZzBase):", "    zz_flag: bool = True", ""]
+            out["variants"].append("permute-classes")
+            texts = {}
+            for tag, order in (("i_a", reg + pbase + child), ("i_b", pbase + child + reg)):
+                v = copy.deepcopy(pkg)
+                mreg = plain_module("zz_registry")
+                mreg["raw_tail"] = order
+                v["modules"].append(mreg)
+                res = run(v, tag)
+                texts[tag] = res["files"].get(f"{root}/zz_registry/zz_registry.sdsstub") if res["outcome"] == "ok" else None
+            if texts["i_a"] is not None and texts["i_b"] is not None:
+                try:
+                    sa, _ = stubparse.parse(texts["i_a"])
+                    sb, _ = stubparse.parse(texts["i_b"])
+                    da = {(d.kind, d.name): repr(d) for d in sa.decls}
+                    db = {(d.kind, d.name): repr(d) for d in sb.decls}
+                    if da != db:
+                        bad = sorted(k for k in set(da) | set(db) if da.get(k) != db.get(k))
+                        fail(f"permutation of the classes of {root}.zz_registry: the declarations of its stub are not the same ones "
+                             f"({bad[:2]})", variant="permute-classes", before=texts["i_a"][:700], after=texts["i_b"][:700])
+                except stubparse.StubSyntaxError:
+                    pass
         # (d) the top-level functions of one module are permuted
         cands = [m for m in pkg["modules"] if len(m["functions"]) >= 2 and m["qname"] not in reexp
                  and not any(seg.startswith("_") for seg in m["pkg"][1:] + [m["name"]])]
